@@ -370,7 +370,10 @@ def guardsLine : P String := do
   let bad := ds.filter (fun s => !(s.g.discountOKfinite) || !(s.g.discountComplete))
   match bad with
   | s :: _ => return s!"fail {s.cls}::setDiscount guard_not_unit_interval {s.file}:{s.line}"
-  | [] => return s!"ok guards trivial"
+  | [] =>
+      let all := AITB.Gen.Guards.sites
+      let nanOk := all.filter (fun s => !(s.g.eval .nan))
+      return s!"ok guards trivial sites:{all.length} discountSites:{ds.length} nanAccepting:{nanOk.length} unguardedDiscountSetters:{AITB.Gen.Guards.unguardedDiscountSetters.length}"
 
 def handle (toks : List String) : String :=
   let r := match toks with
